@@ -204,6 +204,17 @@ func (k Keeper) UpdateNSTValidatorListForStaker(ctx sdk.Context, assetID, staker
 				stakerList.StakerAddrs = append(stakerList.StakerAddrs[:idx], stakerList.StakerAddrs[idx+1:]...)
 				valueStakerList = k.cdc.MustMarshal(&stakerList)
 				store.Set(keyStakerList, valueStakerList)
+				// the stakers behind the removed one move up by one position: keep the
+				// index stored with each of them in step with the list
+				for i := idx; i < len(stakerList.StakerAddrs); i++ {
+					keyMoved := types.NativeTokenStakerKey(assetID, stakerList.StakerAddrs[i])
+					if bz := store.Get(keyMoved); bz != nil {
+						moved := &types.StakerInfo{}
+						k.cdc.MustUnmarshal(bz, moved)
+						moved.StakerIndex = int64(i)
+						store.Set(keyMoved, k.cdc.MustMarshal(moved))
+					}
+				}
 			}
 			exists = true
 			stakerInfo.StakerIndex = int64(idx)
